@@ -82,11 +82,13 @@ func (s *grpcServer) Initialize(
 			s.logUnary,
 			grpc_prometheus.UnaryServerInterceptor,
 			UnaryFaultInjector(s.faults),
+			s.recoverUnary,
 		),
 		grpc.ChainStreamInterceptor(
 			s.logStream,
 			grpc_prometheus.StreamServerInterceptor,
 			StreamFaultInjector(s.faults),
+			s.recoverStream,
 		),
 		grpc.KeepaliveEnforcementPolicy(keepalive.EnforcementPolicy{
 			// be tolerant of aggressive client keepalives
@@ -141,6 +143,40 @@ func (s *grpcServer) logUnary(
 		Dur("latency", elapsed).
 		Msg("unary")
 	return resp, err
+}
+
+// recoverUnary answers a request whose handler panicked (e.g. an action
+// constructor rejecting an out-of-range field) with an Internal status instead
+// of letting the panic terminate the whole server process.
+func (s *grpcServer) recoverUnary(
+	ctx context.Context,
+	req interface{},
+	info *grpc.UnaryServerInfo,
+	handler grpc.UnaryHandler,
+) (resp interface{}, err error) {
+	defer func() {
+		if r := recover(); r != nil {
+			s.logger.Error().Interface("panic", r).Str("method", info.FullMethod).Msg("panic in unary handler")
+			resp, err = nil, status.Errorf(codes.Internal, "panic in handler: %v", r)
+		}
+	}()
+	return handler(ctx, req)
+}
+
+// recoverStream is recoverUnary for streaming calls
+func (s *grpcServer) recoverStream(
+	srv interface{},
+	ss grpc.ServerStream,
+	info *grpc.StreamServerInfo,
+	handler grpc.StreamHandler,
+) (err error) {
+	defer func() {
+		if r := recover(); r != nil {
+			s.logger.Error().Interface("panic", r).Str("method", info.FullMethod).Msg("panic in stream handler")
+			err = status.Errorf(codes.Internal, "panic in handler: %v", r)
+		}
+	}()
+	return handler(srv, ss)
 }
 
 func (s *grpcServer) logStream(
